@@ -301,7 +301,9 @@ class XmlContext:
             builder = self.get_builder()
             target_qname = builder.build_class_meta(clazz).target_qname
             if target_qname and target_qname in self.xsi_cache:
-                self.xsi_cache[target_qname].remove(clazz)
+                # Another call may have removed it already
+                with suppress(ValueError):
+                    self.xsi_cache[target_qname].remove(clazz)
 
             return False
 
